@@ -226,7 +226,7 @@ def judge(ctx, events):
     # internal outcomes are rejections by themselves (no spec action explains an escaping exception)
     clean = [{'op': e['op'], 'a': e['a'], 'b': e['b'], 'k': e['k'] if e['k'] != 'internal' else 'err',
               'code': e['code'] if e['k'] != 'internal' else -1, 'r': e['r']} for e in events]
-    verdicts = validate_parallel(ctx, 'C04_Trace', clean, jobs=ctx.pick(2, 8) if len(clean) > 2000 else 1)
+    verdicts = validate_parallel(ctx, 'C04_Trace', clean, jobs=ctx.pick(3, 8) if len(clean) > 2000 else 1)
     clauses = {}
     for (i, clause) in verdicts:
         e = events[i - 1]
@@ -265,8 +265,8 @@ def run(ctx):
     d = Driver()
     rng = ctx.rng
     classes = {}
-    n_direct = ctx.pick(14000, 300000)
-    n_basic = ctx.pick(800, 12000)
+    n_direct = ctx.pick(24000, 300000)
+    n_basic = ctx.pick(1200, 12000)
     for i in range(n_direct):
         op = OPS[i % 4]
         cls, a, b = gen_pair(rng, op)
